@@ -5,6 +5,8 @@ open Atomman Atomman.C06
   Line protocol of the C06 driver (stateful):
     reset                               → ok
     op <operation tokens>               → ok … | err:<class>
+    call <prop|aprop|system|aext> …     → the same replies; the option handling (a_id / index, value kinds, flag
+                                          spellings `b0 b1` = Python bool, `o0 o1` = other falsy / truthy) is the model's
     dump <n> <obj ids…> <m> <sys ids…>  → canonical dump of the listed live objects + sharing pairs
   Operands: values `V <dt> <ndim> <dims…> <cells…>` (dt `i f b s<w>`; cells int, p/q, 0/1, `_chars`),
   indices `I i`, `S a b c` (`.` = None), `L n i…`, `K n b…`; `.` = argument absent.
@@ -172,6 +174,42 @@ def pOp : P Op := fun ts => match ts with
   | "ixset" :: "s" :: r => (do let i ← pNat; let ix ← pIndex; let j ← pNat; pure (Op.ixSet i ix (.inr j)) : P Op) r
   | _ => none
 
+def pFlag : P Flag := fun ts => match ts with
+  | "b1" :: r => some (.bool true, r)
+  | "b0" :: r => some (.bool false, r)
+  | "o1" :: r => some (.other true, r)
+  | "o0" :: r => some (.other false, r)
+  | _ => none
+
+def pCallVal : P CallVal := fun ts => match ts with
+  | "A" :: r => (pNat r).map (fun (o, r') => (CallVal.atoms o, r'))
+  | _ => (pVal ts).map (fun (v, r') => (CallVal.lit v, r'))
+
+def pKey : P (Option String) := fun ts => match ts with
+  | "." :: r => some (none, r)
+  | t :: r => some (some t, r)
+  | [] => none
+
+def pArgs : P PropArgs := do
+  let k ← pKey; let ix ← pOpt pIndex; let v ← pOpt pCallVal; let aid ← pOpt pIndex
+  pure ⟨k, ix, v, aid⟩
+
+/-- one API call with its options as the caller spells them: the MODEL does the option handling. -/
+def pCall : P Call := fun ts => match ts with
+  | "prop" :: r => (do let o ← pNat; let a ← pArgs; pure (Call.prop o a) : P Call) r
+  | "aprop" :: r => (do let i ← pNat; let a ← pArgs; let f ← pFlag; pure (Call.atomsProp i a f) : P Call) r
+  | "system" :: r => (do
+      let o ← pNat; let box ← pBox; let pbc ← pCounted pBool
+      let sy ← pOpt (pCounted pSym); let ms ← pOpt (pCounted pMass); let sc ← pFlag; let cp ← pFlag
+      pure (Call.system o box pbc sy ms sc cp) : P Call) r
+  | "aext" :: "i" :: r => (do
+      let i ← pNat; let n ← pInt; let sc ← pFlag; let sy ← pOpt (pCounted pSym)
+      pure (Call.atomsExtend i (.inl n) sc sy) : P Call) r
+  | "aext" :: "a" :: r => (do
+      let i ← pNat; let d ← pNat; let sc ← pFlag; let sy ← pOpt (pCounted pSym)
+      pure (Call.atomsExtend i (.inr d) sc sy) : P Call) r
+  | _ => none
+
 /-! printing -/
 
 def showDType : DType → String
@@ -233,6 +271,12 @@ def handle (s : State) (toks : List String) : State × String :=
     match pOp rest with
     | some (op, []) =>
       let r := stepWith false s op
+      (r.2, match r.1 with | .ok out => showOut out | .error e => showErr e)
+    | _ => (s, err "format")
+  | "call" :: rest =>
+    match pCall rest with
+    | some (c, []) =>
+      let r := callWith false s c
       (r.2, match r.1 with | .ok out => showOut out | .error e => showErr e)
     | _ => (s, err "format")
   | "dump" :: rest =>
